@@ -149,7 +149,8 @@ Inductive call :=
        (p2 : option str) (l2 : loc) (s2 : list selection).
 
 (* (fragment pairs not yet compared, (field map, fragment) pairs not yet compared) *)
-Definition ostate := (list (str * str * bool) * list (loc * str * bool))%type.
+Definition qstate := list (loc * list (str * bool)).   (* per selection set: fragments not yet compared with it *)
+Definition ostate := (list (str * str * bool) * qstate)%type.
 
 Definition loc_eqb (a b : loc) : bool :=
   match a, b with
@@ -161,8 +162,19 @@ Definition loc_eqb (a b : loc) : bool :=
 Definition pkey_match (a b : str) (me : bool) (k : str * str * bool) : bool :=
   let '(x, y, m) := k in
   Bool.eqb m me && ((str_eqb x a && str_eqb y b) || (str_eqb x b && str_eqb y a)).
-Definition qkey_match (l : loc) (f : str) (me : bool) (k : loc * str * bool) : bool :=
-  let '(l', f', m) := k in Bool.eqb m me && loc_eqb l' l && str_eqb f' f.
+Definition ematch (f : str) (me : bool) (k : str * bool) : bool :=
+  Bool.eqb (snd k) me && str_eqb (fst k) f.
+(* take the key (l, f, me) out of the not-yet-compared set; None: already compared *)
+Fixpoint q_take (l : loc) (f : str) (me : bool) (q : qstate) : option qstate :=
+  match q with
+  | [] => None
+  | (l', es) :: q' =>
+      if loc_eqb l' l && existsb (ematch f me) es
+      then Some ((l', filter (fun k => negb (ematch f me k)) es) :: q')
+      else match q_take l f me q' with Some r => Some ((l', es) :: r) | None => None end
+  end.
+Fixpoint q_size (q : qstate) : nat :=
+  match q with [] => 0 | (_, es) :: q' => length es + q_size q' end.
 
 Fixpoint perms {A} (l : list A) : list (A * A) :=
   match l with [] => [] | x :: l' => map (fun y => (x, y)) l' ++ perms l' end.
@@ -227,12 +239,15 @@ Fixpoint run (fuel : nat) (s : schema) (frs : list (str * (ty * list selection))
                                    | None => []
                                    end) m1) st false
       | CFieldsFrag me mid m fr =>
-          if negb (existsb (qkey_match mid fr me) (snd st)) then Ok (false, st)
-          else let st1 := (fst st, filter (fun k => negb (qkey_match mid fr me k)) (snd st)) in
-               match frag_ff s frs fr with
-               | None => Ok (false, st1)
-               | Some (fm2, fns) => seq (CBetween me m fm2 :: map (CFieldsFrag me mid m) fns) st1 false
-               end
+          match q_take mid fr me (snd st) with
+          | None => Ok (false, st)
+          | Some q' =>
+              let st1 := (fst st, q') in
+              match frag_ff s frs fr with
+              | None => Ok (false, st1)
+              | Some (fm2, fns) => seq (CBetween me m fm2 :: map (CFieldsFrag me mid m) fns) st1 false
+              end
+          end
       | CFrags me a b =>
           if str_eqb a b then Ok (false, st)
           else if negb (existsb (pkey_match a b me) (fst st)) then Ok (false, st)
@@ -284,8 +299,8 @@ Definition pair_universe (names : list str) : list (str * str * bool) :=
   flat_map (fun a => flat_map (fun b => both_flags (a, b)) names) names.
 Definition selset_locs (es : list ev) : list loc :=
   flat_map (fun e => match e with ESelSet _ l _ => [l] | _ => [] end) es.
-Definition ff_universe (locs : list loc) (names : list str) : list (loc * str * bool) :=
-  flat_map (fun l => flat_map (fun f => both_flags (l, f)) names) locs.
+Definition ff_universe (locs : list loc) (names : list str) : qstate :=
+  map (fun l => (l, flat_map both_flags names)) locs.
 Definition initial_state (s : schema) (d : document) : ostate :=
   let names := map fst (frag_table (doc_defs d)) in
   (pair_universe names, ff_universe (selset_locs (doc_events s d)) names).
@@ -315,7 +330,7 @@ Definition def_body (d : definition) : list selection :=
 Fixpoint defs_h (ds : list definition) : nat :=
   match ds with [] => 0 | d :: ds' => Nat.max (sels_h (def_body d)) (defs_h ds') end.
 
-Definition state_size (st : ostate) : nat := length (fst st) + length (snd st).
+Definition state_size (st : ostate) : nat := length (fst st) + q_size (snd st).
 (* every memo key buys one more descent through the deepest selection *)
 Definition overlap_fuel (s : schema) (d : document) : nat :=
   let h := defs_h (doc_defs d) in
